@@ -109,6 +109,10 @@ def parse_type(s: str) -> Ty:
             return Ty('rec', cls=cls)
         if name == 'optint':
             return Ty('optint')
+        if name == 'strid':
+            return Ty('strid')
+        if name == 'optstrid':
+            return Ty('optstrid')
         raise ValueError(f"bad type {s!r} at {name!r}")
 
     t = ty()
@@ -243,6 +247,14 @@ def fresh(ty: Ty, name: str, dims: int = 0) -> V:
         return VRef(z3.Const(name, _arr_sort(I, dims)), ty.cls, nullable=ty.nullable)
     if k == 'optint':
         return VOptInt(z3.Const(name + '?', _arr_sort(B, dims)), z3.Const(name, _arr_sort(I, dims)))
+    if k == 'strid':
+        v = VInt(z3.Const(name, _arr_sort(I, dims)))
+        v.strid = True
+        return v
+    if k == 'optstrid':
+        v = VOptInt(z3.Const(name + '?', _arr_sort(B, dims)), z3.Const(name, _arr_sort(I, dims)))
+        v.strid = True
+        return v
     if k == 'tuple':
         return VTuple([fresh(t, f"{name}.{i}", dims) for i, t in enumerate(ty.items)])
     if k == 'rec':
@@ -259,13 +271,13 @@ def fresh(ty: Ty, name: str, dims: int = 0) -> V:
 
 def type_of(v: V) -> Ty:
     if isinstance(v, VInt):
-        return T_INT
+        return Ty('strid') if getattr(v, 'strid', False) else T_INT
     if isinstance(v, VBool):
         return T_BOOL
     if isinstance(v, VRef):
         return Ty('ref', cls=v.cls, nullable=v.nullable)
     if isinstance(v, VOptInt):
-        return Ty('optint')
+        return Ty('optstrid') if getattr(v, 'strid', False) else Ty('optint')
     if isinstance(v, VTuple):
         return Ty('tuple', items=[type_of(i) for i in v.items])
     if isinstance(v, VRec):
@@ -286,13 +298,19 @@ def type_of(v: V) -> Ty:
 def sel(tree: V, i) -> V:
     """Peel the outermost index dimension of a lifted tree."""
     if isinstance(tree, VInt):
-        return VInt(z3.Select(tree.z, i))
+        r = VInt(z3.Select(tree.z, i))
+        if getattr(tree, 'strid', False):
+            r.strid = True
+        return r
     if isinstance(tree, VBool):
         return VBool(z3.Select(tree.z, i))
     if isinstance(tree, VRef):
         return VRef(z3.Select(tree.z, i), tree.cls, nullable=tree.nullable)
     if isinstance(tree, VOptInt):
-        return VOptInt(z3.Select(tree.isnone, i), z3.Select(tree.z, i))
+        r = VOptInt(z3.Select(tree.isnone, i), z3.Select(tree.z, i))
+        if getattr(tree, 'strid', False):
+            r.strid = True
+        return r
     if isinstance(tree, VTuple):
         return VTuple([sel(t, i) for t in tree.items])
     if isinstance(tree, VRec):
